@@ -206,7 +206,7 @@ def files(tier):
             out += [(kind, o) for o in F.f4_histories(kind, 3, F.F4_OPTIONS_SMALL)]
             out += [(kind, (x, g, y, z)) for x in [(2, 1), (1, 2)] for g in ('abs', 'nod') for y in [(2, 2), (1, 1)]
                     for z in ['abs', (2, 3)]]
-        if kind in ('int', 'str', 'strb', 'ts'):
+        if kind in ('int', 'str', 'strb', 'ts', 'be'):
             # channels that never hold a value / hold zero values in a listed segment
             out += [(kind, o) for o in [((0, 1),), ('nod',), ((0, 1), (2, 1)), ((2, 1), (0, 1), (2, 2)),
                                         ((1, 2), (0, 1), (3, 2)), ('nod', (0, 1))]]
